@@ -10,6 +10,7 @@ fact about libc/NumPy that the harness checks on every value it writes.
 Only property theorems and their non-vacuity examples live here.
 -/
 import PyttbModel.Lemmas.Format
+import PyttbModel.Props.C16Digits
 namespace Pyttb
 open Format
 
